@@ -108,6 +108,9 @@ pub struct Report {
     pub assumptions: Vec<String>,
     pub machinery: Vec<String>,
     pub replay_mode: bool,
+    /// a worker process that dies (abort, stack overflow) while running a case is a verdict for
+    /// this property (C05) rather than a machinery failure
+    pub worker_death_is_violation: bool,
 }
 
 const MAX_STORED_VIOLATIONS: usize = 5000;
@@ -127,6 +130,7 @@ impl Report {
             assumptions: vec![],
             machinery: vec![],
             replay_mode: false,
+            worker_death_is_violation: false,
         }
     }
     pub fn violation(&mut self, v: Violation) {
